@@ -60,7 +60,7 @@ func c03Scenarios() []hpScenario {
 									if disc && (body || (retry && try)) {
 										continue
 									}
-									if s2 == upSilent && !try {
+									if s2 == upSilent && !try && f != upClose {
 										continue
 									}
 								}
@@ -116,7 +116,7 @@ func c03Core(sc *hpScenario) bool {
 	if r.Oneway || r.Body {
 		return false
 	}
-	if len(r.Script) > 1 && r.Script[1] == upSilent {
+	if len(r.Script) > 1 && r.Script[1] == upSilent && r.Script[0] != upClose {
 		return false
 	}
 	return true
